@@ -58,7 +58,9 @@ func Notes(ctx context.Context, client *gitlab.Client, issue *gitlab.Issue) <-ch
 			notes, resp, err := client.Notes.ListIssueNotes(issue.ProjectID, issue.IID, &opts, gitlab.WithContext(ctx))
 
 			if err != nil {
+				// resp is nil when the request itself failed
 				out <- ErrorEvent{Err: err, Time: time.Now()}
+				return
 			}
 
 			for _, note := range notes {
@@ -89,7 +91,9 @@ func LabelEvents(ctx context.Context, client *gitlab.Client, issue *gitlab.Issue
 			events, resp, err := client.ResourceLabelEvents.ListIssueLabelEvents(issue.ProjectID, issue.IID, &opts, gitlab.WithContext(ctx))
 
 			if err != nil {
+				// resp is nil when the request itself failed
 				out <- ErrorEvent{Err: err, Time: time.Now()}
+				return
 			}
 
 			for _, e := range events {
@@ -121,7 +125,9 @@ func StateEvents(ctx context.Context, client *gitlab.Client, issue *gitlab.Issue
 		for {
 			events, resp, err := client.ResourceStateEvents.ListIssueStateEvents(issue.ProjectID, issue.IID, &opts, gitlab.WithContext(ctx))
 			if err != nil {
+				// resp is nil when the request itself failed
 				out <- ErrorEvent{Err: err, Time: time.Now()}
+				return
 			}
 
 			for _, e := range events {
